@@ -30,7 +30,7 @@ use qbase::{
     util::ContinuousData,
     varint::VarInt,
 };
-use qbase::frame::{ResetStreamFrame, StopSendingFrame};
+use qbase::frame::{MaxStreamsFrame, ResetStreamFrame, StopSendingFrame};
 use qrecovery::{recv::{Reader, StopSending}, send::{CancelStream, Writer}, streams::{DataStreams, Ext}};
 
 use super::c11::{dbg_field, send_state, Rec};
@@ -174,6 +174,48 @@ pub fn endpoint(w: Wiring, p: P6, lmd: u64, rmd: u64, streams: u64) -> Endpoint 
             Endpoint { role: Role::Server, ds, params: ps.into(), rec, fc, rc }
         }
     }
+}
+
+/// `Wiring::Client0Rtt` endpoint whose remembered parameters allow `ms` = [bidi, uni] streams.
+pub fn endpoint_ms(w: Wiring, p: P6, lmd: u64, rmd: u64, ms: [u64; 2]) -> Endpoint {
+    assert!(w == Wiring::Client0Rtt);
+    let rec = Rec::default();
+    let wakers = ArcSendWakers::default();
+    let (cp, sp, odcid, _) = zparams(p, lmd, rmd, ms);
+    let ds = DataStreams::new(Role::Client, &cp, &sp, Box::new(DemandConcurrency), rec.clone(), wakers.clone(), None);
+    let fc = ArcSendControler::new(rmd, rec.clone(), wakers.clone());
+    let rc = ArcRecvController::new(lmd, rec.clone());
+    let ps = qbase::param::Parameters::new_client(cp, Some(sp), odcid);
+    Endpoint { role: Role::Client, ds, params: ps.into(), rec, fc, rc }
+}
+
+fn zparams(p: P6, lmd: u64, rmd: u64, ms: [u64; 2]) -> (ClientParameters, ServerParameters, ConnectionId, ConnectionId) {
+    let odcid = ConnectionId::from_slice(&[7u8; 8]);
+    let cscid = ConnectionId::from_slice(&[1u8; 8]);
+    let sscid = ConnectionId::from_slice(&[2u8; 8]);
+    let mut cp = ClientParameters::default();
+    let mut sp = ServerParameters::default();
+    fill(&mut cp, p.l, lmd, 100);
+    fill(&mut sp, p.r, rmd, 100);
+    sp.set(ParameterId::InitialMaxStreamsBidi, vi(ms[0])).unwrap();
+    sp.set(ParameterId::InitialMaxStreamsUni, vi(ms[1])).unwrap();
+    cp.set(ParameterId::InitialSourceConnectionId, cscid).unwrap();
+    sp.set(ParameterId::InitialSourceConnectionId, sscid).unwrap();
+    sp.set(ParameterId::OriginalDestinationConnectionId, odcid).unwrap();
+    (cp, sp, odcid, sscid)
+}
+
+/// The handshake completes (`qconnection/src/builder.rs` `apply_parameters`): the server's real parameters are
+/// received and authenticated, then `revise_params` and `revise_max_data`.
+pub fn revise(e: &Endpoint, rejected: bool, p: P6, lmd: u64, rmd: u64, ms: [u64; 2]) {
+    let (_, sp, _, sscid) = zparams(p, lmd, rmd, ms);
+    {
+        let mut g = e.params.lock_guard().expect("parameters");
+        g.recv_remote_params(sp.clone()).expect("remote parameters");
+        g.initial_scid_from_peer_need_equal(sscid).expect("scid");
+    }
+    e.ds.revise_params(rejected, &sp);
+    e.fc.revise_max_data(rejected, rmd);
 }
 
 pub type W = Writer<Ext<Rec>>;
@@ -442,17 +484,27 @@ fn pick_win(rng: &mut Rng) -> u64 {
 }
 
 fn one_case_s(rng: &mut Rng, sink: &mut Sink) {
-    let w = if rng.chance(1, 2) { Wiring::Client } else { Wiring::Server };
+    // a quarter of the cases: resuming client with REMEMBERED parameters; streams are opened and data is sent
+    // under them (0-RTT), then the handshake completes: `revise_params(zero_rtt_rejected, fresh)`
+    let zrtt = rng.chance(1, 4);
+    let w = if zrtt { Wiring::Client0Rtt } else if rng.chance(1, 2) { Wiring::Client } else { Wiring::Server };
     // six pairwise-distinct-ish values incl. zero
-    let p = P6 { l: [pick_win(rng), pick_win(rng), pick_win(rng)], r: [pick_win(rng), pick_win(rng), pick_win(rng)] };
+    let mut p = P6 { l: [pick_win(rng), pick_win(rng), pick_win(rng)], r: [pick_win(rng), pick_win(rng), pick_win(rng)] };
     let lmd = match rng.below(6) { 0 => 0, 1 => rng.range(1, 50), 2 | 3 => rng.range(51, 2000), _ => rng.range(2001, 3_000_000) };
     let rmd = match rng.below(6) { 0 => 0, 1 => rng.range(1, 50), 2 | 3 => rng.range(51, 2000), _ => rng.range(2001, 3_000_000) };
-    let e = endpoint(w, p, lmd, rmd, 100);
+    let ms0: [u64; 2] = if zrtt { [rng.range(0, 6), rng.range(0, 6)] } else { [100, 100] };
+    let e = if zrtt { endpoint_ms(w, p, lmd, rmd, ms0) } else { endpoint(w, p, lmd, rmd, 100) };
     e.rec.take();
     sink.line(
         &format!("init {} l={},{},{} r={},{},{} lmd={} rmd={}", w.name(), p.l[0], p.l[1], p.l[2], p.r[0], p.r[1], p.r[2], lmd, rmd),
         &format!("ok {}", ctl_tail(&e)),
     );
+    if zrtt { sink.line(&format!("zrtt ms={},{}", ms0[0], ms0[1]), "ok"); sink.branch("case:0rtt"); }
+    let mut pre_revise = if zrtt { rng.range(2, 16) } else { 0 }; // operations before the handshake completes
+    let mut revised = !zrtt;
+    let mut order: Vec<u64> = vec![]; // sending halves in the order they were created
+    let mut fresh_epoch: u128 = 0;     // fresh bytes emitted since the revision
+    let mut ms_cur: [u64; 2] = ms0;    // stream counts the peer currently allows (it knows no local stream beyond them)
     let mut snd: BTreeMap<u64, SendHalf> = BTreeMap::new();
     let mut rcv: BTreeMap<u64, RecvHalf> = BTreeMap::new();
     let mut next_peer = [0u64; 2]; // next peer-initiated index per dir
@@ -470,6 +522,48 @@ fn one_case_s(rng: &mut Rng, sink: &mut Sink) {
     for _ in 0..nops {
         let mut c = rng.below(124);
         if !recv_focus { focus = None; if c >= 100 && rng.chance(1, 2) { c = rng.below(100); } }
+        if !revised {
+            if pre_revise == 0 {
+                // ---- the handshake completes: the peer's real parameters replace the remembered ones ------------
+                let rej = rng.chance(2, 3);
+                let vary = |rng: &mut Rng, v: u64| match rng.below(4) { 0 => v, 1 => v.saturating_sub(rng.range(1, 1 + v.min(500))), 2 => v / 2, _ => v + rng.range(1, 600) };
+                let fr: [u64; 3] = [vary(rng, p.r[0]), vary(rng, p.r[1]), vary(rng, p.r[2])];
+                let rmd2 = vary(rng, conn_limit);
+                let ms2: [u64; 2] = [match rng.below(3) { 0 => ms0[0], 1 => rng.below(ms0[0] + 1), _ => ms0[0] + rng.range(1, 4) }, match rng.below(3) { 0 => ms0[1], 1 => rng.below(ms0[1] + 1), _ => ms0[1] + rng.range(1, 4) }];
+                let op = format!("revise {} r={},{},{} rmd={} ms={},{}", if rej { 1 } else { 0 }, fr[0], fr[1], fr[2], rmd2, ms2[0], ms2[1]);
+                sink.pending(&op);
+                let r = catch(|| revise(&e, rej, P6 { l: p.l, r: fr }, lmd, rmd2, ms2));
+                if r.is_err() { sink.line(&op, "PANIC"); sink.monitor_fail("panic:revise", "revise_params / revise_max_data panicked"); return; }
+                // monitors' view (RFC 9000 §7.4.1): after a rejection ONLY the fresh values count, everything sent
+                // before is void; after an accepted 0-RTT the fresh values may only raise the remembered ones
+                for h in snd.values_mut() {
+                    let f = if h.kind == "local:bi" { fr[1] } else { fr[2] };
+                    if rej { h.peer_limit = f; h.hi = 0; h.emitted.clear(); } else { h.peer_limit = h.peer_limit.max(f); }
+                }
+                if rej { conn_limit = rmd2; fresh_epoch = 0; ms_cur = ms2; } else { conn_limit = conn_limit.max(rmd2); ms_cur = [ms_cur[0].max(ms2[0]), ms_cur[1].max(ms2[1])]; }
+                sink.branch(if rej { "revise:rejected" } else { "revise:accepted" });
+                for i in 1..3 { sink.branch(&format!("revise:win:{}", if fr[i] < p.r[i] { "lower" } else if fr[i] == p.r[i] { "equal" } else { "higher" })); }
+                for i in 0..2 { sink.branch(&format!("revise:streams:{}", if ms2[i] < ms0[i] { "lower" } else if ms2[i] == ms0[i] { "equal" } else { "higher" })); }
+                p.r = fr;
+                let wins: Vec<String> = order.iter().map(|s| format!("{}:{}", s, snd.get(s).and_then(|h| writer_window(&h.w)).map(|v| v.to_string()).unwrap_or("-".into()))).collect();
+                sink.line(&op, &format!("ok {} wins={}", ctl_tail(&e), if wins.is_empty() { "-".to_string() } else { wins.join(",") }));
+                revised = true;
+                continue;
+            }
+            pre_revise -= 1;
+            // before the handshake completes nothing arrives from the server: open / write / assemble only
+            c = match rng.below(10) { 0..=2 => rng.below(8), 3..=5 => 14 + rng.below(14), _ => 31 + rng.below(27) };
+        } else if zrtt && rng.chance(1, 10) {
+            // ---- MAX_STREAMS from the peer -------------------------------------------------------------------
+            let uni = rng.chance(1, 2);
+            let v = rng.below(9);
+            let fr = if uni { MaxStreamsFrame::Uni(vi(v)) } else { MaxStreamsFrame::Bi(vi(v)) };
+            let r = e.ds.recv_stream_control(StreamCtlFrame::MaxStreams(fr));
+            e.rec.take();
+            ms_cur[uni as usize] = ms_cur[uni as usize].max(v);
+            sink.line(&format!("maxstreams {} {}", if uni { "uni" } else { "bi" }, v), if r.is_ok() { "ok" } else { "err" });
+            continue;
+        }
         if let Some((_, left)) = focus.as_mut() {
             if *left == 0 { focus = None; } else { *left -= 1; if rng.chance(3, 5) { c = 80 + rng.below(13); } }
         }
@@ -477,17 +571,19 @@ fn one_case_s(rng: &mut Rng, sink: &mut Sink) {
             // ---- open a local stream -------------------------------------------------------------
             let bi = rng.chance(1, 2);
             if bi {
-                let Some((sid, r, wr)) = e.open_bi() else { sink.line("open bi", "none"); continue };
+                let Some((sid, r, wr)) = e.open_bi() else { e.rec.take(); /* STREAMS_BLOCKED is C12's */ sink.line("open bi", "none"); continue };
                 let s = u64::from(sid);
                 let (sw, rw) = (writer_window(&wr).unwrap_or(u64::MAX), reader_window(&r).unwrap_or(u64::MAX));
                 sink.line("open bi", &format!("sid={} swin={} rwin={}", s, sw, rw));
+                order.push(s);
                 snd.insert(s, SendHalf { reset: None, w: wr, kind: "local:bi", peer_limit: p.r[1], hi: 0, written: 0, fin_req: false, emitted: vec![] });
                 rcv.insert(s, RecvHalf::new(r, p.l[0]));
             } else {
-                let Some((sid, wr)) = e.open_uni() else { sink.line("open uni", "none"); continue };
+                let Some((sid, wr)) = e.open_uni() else { e.rec.take(); sink.line("open uni", "none"); continue };
                 let s = u64::from(sid);
                 let sw = writer_window(&wr).unwrap_or(u64::MAX);
                 sink.line("open uni", &format!("sid={} swin={}", s, sw));
+                order.push(s);
                 snd.insert(s, SendHalf { reset: None, w: wr, kind: "local:uni", peer_limit: p.r[2], hi: 0, written: 0, fin_req: false, emitted: vec![] });
             }
         } else if c < 14 {
@@ -509,6 +605,7 @@ fn one_case_s(rng: &mut Rng, sink: &mut Sink) {
                 assert_eq!(u64::from(s2), s);
                 let (sw, rw) = (writer_window(&wr).unwrap_or(u64::MAX), reader_window(&r).unwrap_or(u64::MAX));
                 sink.line(&op, &format!("sid={} swin={} rwin={}{}", s, sw, rw, frames_tok(&fr)));
+                order.push(s);
                 snd.insert(s, SendHalf { reset: None, w: wr, kind: "remote:bi", peer_limit: p.r[0], hi: 0, written: 0, fin_req: false, emitted: vec![] });
                 rcv.insert(s, RecvHalf::new(r, p.l[1]));
             } else {
@@ -569,6 +666,7 @@ fn one_case_s(rng: &mut Rng, sink: &mut Sink) {
                         let newb = b.saturating_sub(a.max(h.hi));
                         if newb > 0 { saw_fresh = true; sink.branch("load:fresh"); } else if b > a { saw_retx = true; sink.branch("load:retransmit"); } else { sink.branch("load:empty-fin"); }
                         fresh_total += newb as u128;
+                        fresh_epoch += newb as u128;
                         h.hi = h.hi.max(b);
                         h.emitted.push((a, b, fin));
                     } else {
@@ -577,8 +675,8 @@ fn one_case_s(rng: &mut Rng, sink: &mut Sink) {
                 }
             }
             // monitors: connection limit, each byte charged exactly once
-            if fresh_total > conn_limit as u128 {
-                sink.monitor_fail("conn_limit_exceeded", &format!("{} fresh bytes emitted against a connection limit of {}", fresh_total, conn_limit));
+            if fresh_epoch > conn_limit as u128 {
+                sink.monitor_fail("conn_limit_exceeded", &format!("{} fresh bytes emitted (since the parameters in force were received) against a connection limit of {}", fresh_epoch, conn_limit));
             }
             if let Some((sent, _, _)) = send_state(&e.fc) {
                 if sent as u128 != fresh_total {
@@ -590,6 +688,7 @@ fn one_case_s(rng: &mut Rng, sink: &mut Sink) {
             // ---- MAX_STREAM_DATA from the peer ------------------------------------------------------------
             if snd.is_empty() { continue; }
             let s = *rng.pick(&snd.keys().copied().collect::<Vec<_>>());
+            if !peer_knows(s, &ms_cur) { continue; }
             let h = snd.get_mut(&s).unwrap();
             let m = match rng.below(5) { 0 => h.peer_limit, 1 => h.peer_limit.saturating_sub(rng.range(1, 50)), 2 => h.peer_limit + rng.range(1, 20), 3 => h.written + rng.below(40), _ => h.peer_limit + rng.range(1, 3000) }.min(VMAX);
             let sid = StreamId::from(vi(s));
@@ -626,6 +725,7 @@ fn one_case_s(rng: &mut Rng, sink: &mut Sink) {
                 _ if !live.is_empty() && rng.chance(5, 6) => *rng.pick(&live),
                 _ => *rng.pick(&rcv.keys().copied().collect::<Vec<_>>()),
             };
+            if !peer_knows(s, &ms_cur) { continue; }
             let focused = matches!(focus, Some((f, _)) if f == s);
             let h = rcv.get_mut(&s).unwrap();
             let top = h.got.iter().map(|x| x.1).max().unwrap_or(0);
@@ -719,7 +819,7 @@ fn one_case_s(rng: &mut Rng, sink: &mut Sink) {
                 }
             }
         } else if c >= 100 {
-            if new_ops(c, rng, sink, &e, &mut snd, &mut rcv, &mut focus, &mut conn_rcvd, &mut conn_adv) { return; }
+            if new_ops(c, rng, sink, &e, &mut snd, &mut rcv, &mut focus, &mut conn_rcvd, &mut conn_adv, &ms_cur) { return; }
         } else {
             // ---- application read ---------------------------------------------------------------------------
             if rcv.is_empty() { continue; }
@@ -764,6 +864,13 @@ fn one_case_s(rng: &mut Rng, sink: &mut Sink) {
     if saw_over { sink.branch("case:over-limit-input"); }
 }
 
+/// Does the peer know stream `s`?  After a rejected 0-RTT the server has seen none of the early streams: it can
+/// refer to a client-opened stream only within the stream count it allows (frames for others are a
+/// STREAM_STATE_ERROR — C12's subject).  Only 0-RTT cases have counts that small.
+fn peer_knows(s: u64, ms: &[u64; 2]) -> bool {
+    ms[0] >= 100 || s % 2 != 0 || s / 4 < ms[((s / 2) % 2) as usize]
+}
+
 fn had_fin_of(h: &RecvHalf) -> bool {
     h.fin.is_some()
 }
@@ -774,7 +881,7 @@ fn had_fin_of(h: &RecvHalf) -> bool {
 #[allow(clippy::too_many_arguments)]
 fn new_ops(
     c: u64, rng: &mut Rng, sink: &mut Sink, e: &Endpoint, snd: &mut BTreeMap<u64, SendHalf>, rcv: &mut BTreeMap<u64, RecvHalf>,
-    focus: &mut Option<(u64, u32)>, conn_rcvd: &mut u128, conn_adv: &mut u64,
+    focus: &mut Option<(u64, u32)>, conn_rcvd: &mut u128, conn_adv: &mut u64, ms_cur: &[u64; 2],
 ) -> bool {
     if c < 109 {
         // ---- the application gives a receiving half up: stop(code) / drops the Reader ----------------------
@@ -801,6 +908,7 @@ fn new_ops(
         // ---- RESET_STREAM from the peer ------------------------------------------------------------------------
         if rcv.is_empty() { return false; }
         let s = match *focus { Some((f, _)) if rcv.contains_key(&f) && rng.chance(1, 2) => f, _ => *rng.pick(&rcv.keys().copied().collect::<Vec<_>>()) };
+        if !peer_knows(s, ms_cur) { return false; }
         let h = rcv.get_mut(&s).unwrap();
         let top = h.got.iter().map(|x| x.1).max().unwrap_or(0);
         let fin_ = match rng.below(9) {
@@ -879,6 +987,7 @@ fn new_ops(
         let h = snd.get_mut(&s).unwrap();
         let code = rng.below(1000);
         let cancel = c < 118;
+        if !cancel && !peer_knows(s, ms_cur) { return false; }
         let op = format!("{} {}", if cancel { "cancel" } else { "stopsending" }, s);
         let res = if cancel { h.w.cancel(code); Ok(0) } else {
             e.ds.recv_stream_control(StreamCtlFrame::StopSending(StopSendingFrame::new(StreamId::from(vi(s)), vi(code)))).map_err(|er| er.kind())
